@@ -107,6 +107,11 @@ theorem ro_checkBasic (c : Call) : RO (checkBasic c) := by unfold checkBasic; ro
 macro_rules | `(tactic| ro_spec) => `(tactic| exact ro_checkBasic _)
 theorem ro_verifyPayable (env : Env) (a : Bytes) : RO (verifyPayable env a) := by unfold verifyPayable; ro
 macro_rules | `(tactic| ro_spec) => `(tactic| exact ro_verifyPayable _ _)
+theorem ro_verifyPayableIf (env : Env) (b : Bool) (a : Bytes) : RO (verifyPayableIf env b a) := by
+  unfold verifyPayableIf; ro
+macro_rules | `(tactic| ro_spec) => `(tactic| exact ro_verifyPayableIf _ _ _)
+theorem ro_checkSameHash (cur t : Token) : RO (checkSameHash cur t) := by unfold checkSameHash; ro
+macro_rules | `(tactic| ro_spec) => `(tactic| exact ro_checkSameHash _ _)
 theorem ro_isPaused (k : Bytes) : RO (isPaused k) := by unfold isPaused; ro
 macro_rules | `(tactic| ro_spec) => `(tactic| exact ro_isPaused _)
 theorem ro_checkFrozeAndPause (a k : Bytes) (t : Token) (r : Bool) : RO (checkFrozeAndPause a k t r) := by
@@ -287,7 +292,7 @@ macro_rules | `(tactic| fr_ro1 $t) => `(tactic|
 macro "fr_ro" : tactic => `(tactic| first
   | fr_ro1 (RO.tick _) | fr_ro1 (RO.readKey _ _) | fr_ro1 (RO.getAcct _) | fr_ro1 ro_loadAcct | fr_ro1 ro_saveAcct
   | fr_ro1 (ro_marshalToken _) | fr_ro1 (ro_marshalRoles _) | fr_ro1 (ro_unmarshalToken _) | fr_ro1 (ro_unmarshalRoles _)
-  | fr_ro1 (ro_checkBasic _) | fr_ro1 (ro_verifyPayable _ _) | fr_ro1 (ro_isPaused _) | fr_ro1 (ro_checkFrozeAndPause _ _ _ _)
+  | fr_ro1 (ro_checkBasic _) | fr_ro1 (ro_verifyPayable _ _) | fr_ro1 (ro_verifyPayableIf _ _ _) | fr_ro1 (ro_checkSameHash _ _) | fr_ro1 (ro_isPaused _) | fr_ro1 (ro_checkFrozeAndPause _ _ _ _)
   | fr_ro1 (ro_getESDTDataFromKey _ _) | fr_ro1 (ro_getNFTOnDestination _ _ _) | fr_ro1 (ro_getNFTOnSender _ _ _)
   | fr_ro1 (ro_getRoles _ _) | fr_ro1 (ro_checkAllowed _ _ _) | fr_ro1 (ro_getLatestNonce _ _)
   | fr_ro1 (ro_checkLocalAction _ _ _) | fr_ro1 (ro_checkCreateBurnAdd _ _ _))
